@@ -1,0 +1,139 @@
+//go:build verif
+
+package dht
+
+// Hooks for the verification harness in /verif. Compiled only with -tags verif; add-only.
+
+import (
+	"sort"
+	"time"
+
+	"github.com/anacrolix/dht/v2/int160"
+	"github.com/anacrolix/dht/v2/krpc"
+)
+
+// VerifBucketIndex exposes table.bucketIndex for a table rooted at root.
+func VerifBucketIndex(root, id [20]byte) (idx int, panicked bool) {
+	defer func() {
+		if recover() != nil {
+			panicked = true
+		}
+	}()
+	tbl := table{rootID: int160.FromByteArray(root), k: 8}
+	return tbl.bucketIndex(int160.FromByteArray(id)), false
+}
+
+// VerifRandomIdInBucket exposes randomIdInBucket.
+func VerifRandomIdInBucket(root [20]byte, bucketIndex int) [20]byte {
+	id := randomIdInBucket(int160.FromByteArray(root), bucketIndex)
+	return id.AsByteArray()
+}
+
+// VerifNode is one routing-table entry as the server sees it.
+type VerifNode struct {
+	Bucket        int // physical bucket slot
+	Id            [20]byte
+	Addr          string
+	IP            []byte
+	Port          int
+	QueryAgeNs    int64 // -1: never
+	ResponseAgeNs int64 // -1: never
+	Failed        bool
+	Good          bool
+	Bad           bool
+	Questionable  bool
+}
+
+// VerifTableSnapshot returns every entry of the routing table and the address index.
+func (s *Server) VerifTableSnapshot() (nodes []VerifNode, addrIndex map[string][]string) {
+	s.mu.Lock()
+	defer s.mu.Unlock()
+	now := time.Now()
+	age := func(t time.Time) int64 {
+		if t.IsZero() {
+			return -1
+		}
+		return int64(now.Sub(t))
+	}
+	for i := range s.table.buckets {
+		for n := range s.table.buckets[i].nodes {
+			nodes = append(nodes, VerifNode{
+				Bucket:        i,
+				Id:            n.Id.AsByteArray(),
+				Addr:          n.Addr.String(),
+				IP:            append([]byte(nil), n.Addr.IP()...),
+				Port:          n.Addr.Port(),
+				QueryAgeNs:    age(n.lastGotQuery),
+				ResponseAgeNs: age(n.lastGotResponse),
+				Failed:        n.failedLastQuestionablePing,
+				Good:          s.IsGood(n),
+				Bad:           s.nodeIsBad(n),
+				Questionable:  s.IsQuestionable(n),
+			})
+		}
+	}
+	sort.Slice(nodes, func(i, j int) bool {
+		if nodes[i].Bucket != nodes[j].Bucket {
+			return nodes[i].Bucket < nodes[j].Bucket
+		}
+		if nodes[i].Id != nodes[j].Id {
+			return string(nodes[i].Id[:]) < string(nodes[j].Id[:])
+		}
+		return nodes[i].Addr < nodes[j].Addr
+	})
+	addrIndex = map[string][]string{}
+	for a, ids := range s.table.addrs {
+		var l []string
+		for id := range ids {
+			b := id.AsByteArray()
+			l = append(l, string(b[:]))
+		}
+		sort.Strings(l)
+		addrIndex[a] = l
+	}
+	return
+}
+
+// VerifAge makes every recorded time d older (zero times stay zero: "never").
+func (s *Server) VerifAge(d time.Duration) {
+	s.mu.Lock()
+	defer s.mu.Unlock()
+	sub := func(t *time.Time) {
+		if !t.IsZero() {
+			*t = t.Add(-d)
+		}
+	}
+	for i := range s.table.buckets {
+		b := &s.table.buckets[i]
+		sub(&b.lastChanged)
+		for n := range b.nodes {
+			sub(&n.lastGotQuery)
+			sub(&n.lastGotResponse)
+		}
+	}
+	sub(&s.lastBootstrap)
+}
+
+// VerifSetTokenClock injects the token server's clock.
+func (s *Server) VerifSetTokenClock(f func() time.Time) {
+	s.mu.Lock()
+	defer s.mu.Unlock()
+	s.tokenServer.timeNow = f
+}
+
+// VerifTokenSecret returns a copy of the token secret.
+func (s *Server) VerifTokenSecret() []byte {
+	s.mu.Lock()
+	defer s.mu.Unlock()
+	return append([]byte(nil), s.tokenServer.secret...)
+}
+
+// VerifFailQuestionablePing applies the effect of a questionable-node ping that got no answer.
+func (s *Server) VerifFailQuestionablePing(addr Addr, id [20]byte) {
+	s.mu.Lock()
+	defer s.mu.Unlock()
+	kid := krpc.ID(id)
+	s.updateNode(addr, &kid, false, func(n *node) {
+		n.failedLastQuestionablePing = true
+	})
+}
